@@ -1,6 +1,7 @@
 """
 Import-time seam for C12: every set *display* `{a, b}` and set *comprehension* `{x for ...}` in the hdl21 sources is
-compiled as `set([a, b])` / `set(x for ...)`, and the name `set` is bound to PermSet in each hdl21 module *before* the
+compiled as `set([a, b])` / `set(x for ...)`, every `a - b`, `a | b`, `a & b`, `a ^ b` as `__hv_setop__(op, a, b)` (the usual result, but a
+plain hash set - from dict-view or set algebra - comes back as a PermSet), and the name `set` is bound to PermSet in each hdl21 module *before* the
 module body runs.  Together with hv/permset.py this puts every hash set hdl21 creates - by call, display or
 comprehension, at import time or later - under the explorer's control.  The transformation preserves semantics (a set
 built from the same elements); it is applied in memory to /repo's current sources, nothing is written back, and
@@ -8,9 +9,9 @@ byte-code caches are bypassed.  `STATS` records what was rewritten, for the evid
 """
 
 import ast, sys, importlib.abc, importlib.machinery
-from .permset import PermSet
+from .permset import PermSet, own_setop
 
-STATS = {"modules": 0, "set_displays": 0, "set_comprehensions": 0, "frozenset_calls": 0}
+STATS = {"modules": 0, "set_displays": 0, "set_comprehensions": 0, "set_algebra_sites": 0, "frozenset_calls": 0}
 PREFIXES = ("hdl21",)
 
 
@@ -25,6 +26,14 @@ class _T(ast.NodeTransformer):
         STATS["set_comprehensions"] += 1
         gen = ast.GeneratorExp(elt=node.elt, generators=node.generators)
         return ast.copy_location(ast.Call(func=ast.Name(id="set", ctx=ast.Load()), args=[gen], keywords=[]), node)
+
+    def visit_BinOp(self, node):
+        self.generic_visit(node)
+        name = {ast.Sub: "sub", ast.BitOr: "or", ast.BitAnd: "and", ast.BitXor: "xor"}.get(type(node.op))
+        if name is None:
+            return node
+        STATS["set_algebra_sites"] = STATS.get("set_algebra_sites", 0) + 1
+        return ast.copy_location(ast.Call(func=ast.Name(id="__hv_setop__", ctx=ast.Load()), args=[ast.Constant(value=name), node.left, node.right], keywords=[]), node)
 
     def visit_Call(self, node):
         self.generic_visit(node)
@@ -46,6 +55,7 @@ class _Loader(importlib.machinery.SourceFileLoader):
 
     def exec_module(self, module):
         module.__dict__["set"] = PermSet
+        module.__dict__["__hv_setop__"] = own_setop
         super().exec_module(module)
 
 
